@@ -425,6 +425,8 @@ fn cmd_determinism(fast: bool) -> i32 {
     let mut bad = 0;
     let mut checked = 0u64;
     for (scenario, profile, prop) in plan::all_scenarios() {
+        // a `backlog` run costs up to a second (tens of thousands of pulls on a large buffer)
+        let runs = if profile == "backlog" { runs / 25 } else { runs };
         for &seed in seeds {
             let go = |threads: usize, tier: &str| -> Option<String> {
                 let o = std::process::Command::new(&exe)
